@@ -666,3 +666,298 @@ Proof.
   rewrite (drain_den fuel ks _ Wb); cbn [den]; rewrite D1; cbn [fst snd app]; [reflexivity | exact Hl].
 Qed.
 
+(* ================================================================ round 3 ================================================================ *)
+Lemma report_err_not_unexpected : forall f, report_err f <> FUnexpected.
+Proof. intros []; discriminate. Qed.
+
+Lemma report_err_eof : forall f, report_err f = FEof <-> f = FEof.
+Proof. intros []; split; intro H; try discriminate; reflexivity. Qed.
+
+(* the function-level wrapper is the Go wrapper: every Read of the wrapped source is the Read of the source, error renamed *)
+Lemma read_report_src : forall k d sch f eager,
+  read k (RSrc d sch (report_err f) eager) =
+  let '(x, e, r') := read k (RSrc d sch f eager) in (x, report_opt e, report_src r').
+Proof.
+  intros k d sch f eager. destruct d as [|c d]; [reflexivity|].
+  cbn [read]. destruct (skipn _ (c :: d)); destruct eager; reflexivity.
+Qed.
+
+Section MultiProofs.
+  Variable split : list N -> option nat.
+  Variable B ext : N.
+  Hypothesis split_ok : forall b e, split b = Some e -> (0 < e <= length b)%nat.
+  Hypothesis ext_ok : 1 <= ext.
+  Variable detect : list N -> bool.
+
+  (* the command on one input never hangs: it is fatal or successful *)
+  Lemma command_total : forall sn s,
+    command_gen split B ext detect sn s = ExitFatal \/ exists ch, command_gen split B ext detect sn s = ExitOk ch.
+  Proof.
+    intros sn s. destruct (fin s) eqn:Ef.
+    2,3: left; apply (command_fault_is_fatal split B ext split_ok ext_ok detect); rewrite Ef; discriminate.
+    destruct (data s) as [|x t] eqn:Ed.
+    { right. destruct (command_clean_is_complete split B ext split_ok ext_ok detect sn s Ef (or_introl Ed)) as (ch & H & _). eauto. }
+    destruct sn as [n|].
+    2:{ right. destruct (command_clean_is_complete split B ext split_ok ext_ok detect None s Ef) as (ch & H & _); [right; discriminate | eauto]. }
+    destruct (detect (sniffed n s)) eqn:Edet.
+    { right. destruct (command_clean_is_complete split B ext split_ok ext_ok detect (Some n) s Ef) as (ch & H & _); [|eauto].
+      right. intros m Hm. inversion Hm. subst. exact Edet. }
+    left. unfold command_gen, pipeline, open_fixed, wrap. cbn [rdata rfin_]. rewrite Ed, Ef.
+    unfold sniff, readfull. cbn [rdata rfin_].
+    unfold sniffed in Edet. rewrite Ed in Edet.
+    destruct (take n (x :: t)) as [[a b] r] eqn:Et. cbn [fst] in Edet.
+    destruct (r =? 0).
+    - rewrite Edet. reflexivity.
+    - cbn [end_error]. destruct a; [reflexivity|]. rewrite Edet. reflexivity.
+  Qed.
+
+  Lemma multi_fault_is_fatal : forall sn l, Exists (fun s => fin s <> REof) l ->
+    multi_command split B ext detect sn l = ExitFatal.
+  Proof.
+    intros sn l. unfold multi_command. induction l as [|s t IH]; intro H.
+    - inversion H.
+    - cbn [map seq_outcomes].
+      destruct (command_total sn s) as [Hf|(ch & Hk)].
+      + rewrite Hf. reflexivity.
+      + rewrite Hk. inversion H as [? ? Hs|? ? Ht]; subst.
+        * rewrite (command_fault_is_fatal split B ext split_ok ext_ok detect sn s Hs) in Hk. discriminate.
+        * rewrite (IH Ht). reflexivity.
+  Qed.
+
+  Lemma sig_concat_app : forall a b : list (list N), sig (concat (a ++ b)) = sig (concat a) ++ sig (concat b).
+  Proof. intros a b. rewrite concat_app. unfold sig. apply filter_app. Qed.
+
+  Lemma multi_clean_is_complete : forall sn l,
+    Forall (fun s => fin s = REof /\ (data s = [] \/ forall n, sn = Some n -> detect (sniffed n s) = true)) l ->
+    exists ch, multi_command split B ext detect sn l = ExitOk ch /\ sig (concat ch) = concat (map (fun s => sig (data s)) l).
+  Proof.
+    intros sn l. unfold multi_command. induction l as [|s t IH]; intro H.
+    - exists []. split; reflexivity.
+    - inversion H as [|? ? [Hs Hd] Ht]; subst. destruct (IH Ht) as (ch' & H1 & H2).
+      destruct (command_clean_is_complete split B ext split_ok ext_ok detect sn s Hs Hd) as (ch & H3 & H4).
+      cbn [map seq_outcomes]. rewrite H3, H1. exists (ch ++ ch'). split; [reflexivity|].
+      rewrite sig_concat_app, H4, H2. reflexivity.
+  Qed.
+
+  (* exit status 0 <-> every input ends cleanly (and is of a known format) *)
+  Lemma multi_ok_only_if_all_clean : forall sn l ch,
+    multi_command split B ext detect sn l = ExitOk ch -> Forall (fun s => fin s = REof) l.
+  Proof.
+    intros sn l ch H. apply Forall_forall. intros s Hin.
+    destruct (fin s) eqn:Ef; [reflexivity| |].
+    all: rewrite multi_fault_is_fatal in H; [discriminate|]; apply Exists_exists; exists s; split; [exact Hin|]; rewrite Ef; discriminate.
+  Qed.
+End MultiProofs.
+
+
+
+Lemma multi_fault_is_fatal_gen :
+  forall (split : list N -> option nat) (B ext : N) (detect : list N -> bool) (sn : option N) (l : list stream),
+    (forall b e, split b = Some e -> (0 < e <= length b)%nat) -> 1 <= ext ->
+    Exists (fun s => fin s <> REof) l -> multi_command split B ext detect sn l = ExitFatal.
+Proof. intros split B ext detect sn l Hs HE. exact (multi_fault_is_fatal split B ext Hs HE detect sn l). Qed.
+
+Lemma short_input_is_fatal_any_schedule :
+  forall (split : list N -> option nat) (B ext : N) (detect : list N -> bool) (sn : option N) d sch f eager bs,
+    (forall b e, split b = Some e -> (0 < e <= length b)%nat) -> 1 <= ext -> f <> FEof ->
+    pipeline split B ext detect open_fixed sn (den_stream (RBuf bs [] None (RSrc d sch (report_err f) eager))) = ExitFatal.
+Proof.
+  intros split B ext detect sn d sch f eager bs Hs HE Hf.
+  assert (E : exists s, den_stream (RBuf bs [] None (RSrc d sch (report_err f) eager)) = wrap s /\ fin s <> REof).
+  { unfold den_stream. cbn. destruct f; try congruence.
+    - exists (mkstream d RUnexpectedEof). split; [reflexivity | discriminate].
+    - exists (mkstream d RUnexpectedEof). split; [reflexivity | discriminate].
+    - exists (mkstream d ROther). split; [reflexivity | discriminate]. }
+  destruct E as (s & Es & Hne). rewrite Es.
+  exact (command_fault_is_fatal split B ext Hs HE detect sn s Hne).
+Qed.
+
+Lemma reported_pipeline_conserves :
+  forall d sch f eager bs1 bs2 sn seen r1 ks fuel,
+    sniff_s sn (RBuf bs1 [] None (RSrc d sch (report_err f) eager)) = Some (seen, r1) -> (length d < fuel)%nat ->
+    drain fuel ks (RBuf bs2 [] None r1) = (d, Some (report_err f)).
+Proof.
+  intros d sch f eager bs1 bs2 sn seen r1 ks fuel H Hl.
+  exact (sniff_pipeline_conserves d sch (report_err f) eager bs1 bs2 sn seen r1 ks fuel (report_err_not_unexpected f) H Hl).
+Qed.
+
+Definition short_witness : list N := [62;97;10;97;99;103;116;10;62;98;10;97;99].
+Lemma short_input_unreported_refuted :
+  pipeline fasta_split CHUNK EXT fasta_detect open_fixed (Some SNIFF) (den_stream (RBuf 4 [] None (RSrc short_witness [] FUnexpected false)))
+    = ExitOk [[62;97;10;97;99;103;116]; [62;98;10;97;99]] /\
+  pipeline fasta_split CHUNK EXT fasta_detect open_fixed (Some SNIFF) (den_stream (RBuf 4 [] None (RSrc short_witness [] (report_err FUnexpected) false)))
+    = ExitFatal.
+Proof. vm_compute. split; reflexivity. Qed.
+
+(* ---------------------------------------------------------------- round 3: the magic numbers *)
+Lemma prefixb_app : forall m r, prefixb m (m ++ r) = true.
+Proof. induction m as [|x m IH]; intro r; [reflexivity|]. cbn. rewrite N.eqb_refl. apply IH. Qed.
+
+Lemma prefixb_spec : forall m l, prefixb m l = true <-> exists r, l = m ++ r.
+Proof.
+  induction m as [|x m IH]; intro l.
+  - split; [intros _; exists l; reflexivity | reflexivity].
+  - destruct l as [|y l]; cbn.
+    + split; [discriminate | intros (r & H); discriminate].
+    + rewrite andb_true_iff, N.eqb_eq, IH. split.
+      * intros (-> & r & ->). exists r. reflexivity.
+      * intros (r & H). inversion H. split; [reflexivity | exists r; reflexivity].
+  Qed.
+
+(* [the repair] a stream which begins with the complete magic number of a format is handed to that decompressor, whatever its length *)
+Lemma select_fixed_magic : forall c r, c <> CRaw -> select check_fixed (magic c ++ r) = c.
+Proof. intros [] r H; try congruence; reflexivity. Qed.
+
+Lemma select_fixed_raw : forall l,
+  select check_fixed l = CRaw <-> (forall c, c <> CRaw -> prefixb (magic c) l = false).
+Proof.
+  intro l. unfold select, check_fixed. split.
+  - intros H c Hc.
+    destruct (prefixb (magic CGz) l) eqn:E1; [discriminate|].
+    destruct (prefixb (magic CZst) l) eqn:E2; [discriminate|].
+    destruct (prefixb (magic CXz) l) eqn:E3; [discriminate|].
+    destruct (prefixb (magic CBz2) l) eqn:E4; [discriminate|].
+    destruct c; congruence.
+  - intro H. rewrite (H CGz), (H CZst), (H CXz), (H CBz2) by discriminate. reflexivity.
+Qed.
+
+(* the repair changes nothing for streams of six bytes or more *)
+Lemma select_conservative : forall l, (6 <= length l)%nat -> select check_orig l = select check_fixed l.
+Proof.
+  intros l H. unfold select, check_orig, check_fixed.
+  assert (E : forall c, (length l <? length (magic c))%nat = false).
+  { intro c. apply Nat.ltb_ge. destruct c; cbn; lia. }
+  rewrite !E. reflexivity.
+Qed.
+
+(* the original chain gives up at the first magic number longer than the stream *)
+Lemma select_orig_short_bzip2 :
+  select check_orig [66; 90; 104; 57] = CRaw /\ select check_fixed [66; 90; 104; 57] = CBz2 /\
+  select check_orig [66; 90; 104; 57; 49] = CRaw /\ select check_orig [66; 90; 104] = CRaw.
+Proof. vm_compute. repeat split; reflexivity. Qed.
+
+(* ---------------------------------------------------------------- round 3: the list of input files *)
+Lemma list_eqb_eq : forall a b, list_eqb a b = true <-> a = b.
+Proof.
+  induction a as [|x a IH]; destruct b as [|y b]; cbn; try (split; [discriminate | discriminate]); try (split; reflexivity).
+  rewrite andb_true_iff, N.eqb_eq, IH. split.
+  - intros [H1 H2]. subst. reflexivity.
+  - intro H. inversion H. auto.
+Qed.
+
+Lemma pmem_In : forall p l, pmem p l = true <-> In p l.
+Proof.
+  induction l as [|q t IH]; cbn; [split; [discriminate | tauto]|].
+  rewrite orb_true_iff, list_eqb_eq, IH. split; intros [H|H]; auto.
+Qed.
+
+Lemma oadd_In : forall acc p q, In q (oadd acc p) <-> In q acc \/ q = p.
+Proof.
+  intros acc p q. unfold oadd. destruct (pmem p acc) eqn:E.
+  - apply pmem_In in E. split; [auto | intros [H| ->]; auto].
+  - rewrite in_app_iff. cbn. split.
+    + intros [H|[H|[]]]; auto.
+    + intros [H|H]; auto.
+Qed.
+
+Lemma oadd_NoDup : forall acc p, NoDup acc -> NoDup (oadd acc p).
+Proof.
+  intros acc p H. unfold oadd. destruct (pmem p acc) eqn:E; [exact H|].
+  assert (Hn : ~ In p acc) by (intro Hi; apply pmem_In in Hi; congruence).
+  clear E. induction H as [|x l Hx Hl IH]; cbn.
+  - constructor; [tauto | constructor].
+  - constructor.
+    + rewrite in_app_iff. cbn. intros [Hi|[->|[]]]; [auto | apply Hn; left; reflexivity].
+    + apply IH. intro Hi. apply Hn. right. exact Hi.
+Qed.
+
+Lemma fold_oadd_if_In : forall fs acc q,
+  In q (fold_left oadd_if fs acc) <-> In q acc \/ (In q fs /\ accepted q = true).
+Proof.
+  induction fs as [|p fs IH]; intros acc q; cbn [fold_left].
+  - cbn. tauto.
+  - rewrite IH. assert (E : In q (oadd_if acc p) <-> In q acc \/ (q = p /\ accepted q = true)).
+    { unfold oadd_if. destruct (accepted p) eqn:Ep.
+      - rewrite oadd_In. split; [intros [H|H]; [auto | subst; auto] | intros [H|[H _]]; auto].
+      - split; [auto | intros [H|[H1 H2]]; [auto | subst; congruence]]. }
+    rewrite E. cbn [In]. split.
+    + intros [[H|[H1 H2]]|[H1 H2]]; auto.
+    + intros [H|[[H1|H1] H2]]; auto.
+Qed.
+
+Lemma fold_oadd_if_NoDup : forall fs acc, NoDup acc -> NoDup (fold_left oadd_if fs acc).
+Proof.
+  induction fs as [|p fs IH]; intros acc H; cbn [fold_left]; [exact H|].
+  apply IH. unfold oadd_if. destruct (accepted p); [apply oadd_NoDup|]; exact H.
+Qed.
+
+Lemma expand_from_NoDup : forall args chk acc, NoDup acc -> NoDup (expand_from chk acc args).
+Proof.
+  induction args as [|[p|fs] t IH]; intros chk acc H; cbn [expand_from]; [exact H| |].
+  - apply IH. destruct (negb chk || accepted p); [apply oadd_NoDup|]; exact H.
+  - apply IH. apply fold_oadd_if_NoDup. exact H.
+Qed.
+
+Lemma expand_from_mono : forall args chk acc q, In q acc -> In q (expand_from chk acc args).
+Proof.
+  induction args as [|[p|fs] t IH]; intros chk acc q H; cbn [expand_from]; [exact H| |].
+  - apply IH. destruct (negb chk || accepted p); [apply oadd_In; auto | exact H].
+  - apply IH. apply fold_oadd_if_In. auto.
+Qed.
+
+Lemma expand_from_sound : forall args chk acc q, In q (expand_from chk acc args) ->
+  In q acc \/ In (AFile q) args \/ exists fs, In (ADir fs) args /\ In q fs /\ accepted q = true.
+Proof.
+  induction args as [|[p|fs] t IH]; intros chk acc q H; cbn [expand_from] in H; [auto| |].
+  - apply IH in H. destruct H as [H|[H|(fs & H1 & H2)]].
+    + destruct (negb chk || accepted p); [apply oadd_In in H; destruct H as [H| ->]; [auto | right; left; left; reflexivity] | auto].
+    + right; left; right; exact H.
+    + right; right. exists fs. split; [right; exact H1 | exact H2].
+  - apply IH in H. destruct H as [H|[H|(fs' & H1 & H2)]].
+    + apply fold_oadd_if_In in H. destruct H as [H|[H1 H2]]; [auto|].
+      right; right. exists fs. split; [left; reflexivity | split; assumption].
+    + right; left; right; exact H.
+    + right; right. exists fs'. split; [right; exact H1 | exact H2].
+Qed.
+
+Lemma expand_from_complete_dir : forall args chk acc fs q,
+  In (ADir fs) args -> In q fs -> accepted q = true -> In q (expand_from chk acc args).
+Proof.
+  induction args as [|[p|fs'] t IH]; intros chk acc fs q Hd Hq Ha; cbn [expand_from]; [destruct Hd| |].
+  - destruct Hd as [Hd|Hd]; [discriminate|]. eapply IH; eassumption.
+  - destruct Hd as [Hd|Hd].
+    + inversion Hd; subst. apply expand_from_mono. apply fold_oadd_if_In. auto.
+    + eapply IH; eassumption.
+Qed.
+
+(* a file argument is always read by the command (chk = false at its call); in a directory walk, when its name passes the filter *)
+Lemma expand_from_complete_file : forall args chk acc q,
+  In (AFile q) args -> chk = false \/ accepted q = true -> In q (expand_from chk acc args).
+Proof.
+  induction args as [|[p|fs] t IH]; intros chk acc q Hf Hc; cbn [expand_from]; [destruct Hf| |].
+  - destruct Hf as [Hf|Hf].
+    + inversion Hf; subst. apply expand_from_mono.
+      destruct Hc as [->|Ha]; [cbn; apply oadd_In; auto | rewrite Ha, orb_true_r; apply oadd_In; auto].
+    + apply IH; assumption.
+  - destruct Hf as [Hf|Hf]; [discriminate|]. apply IH; assumption.
+Qed.
+
+Lemma expand_NoDup : forall args, NoDup (expand args).
+Proof. intro args. apply expand_from_NoDup. constructor. Qed.
+
+Lemma expand_sound : forall args q, In q (expand args) ->
+  In (AFile q) args \/ exists fs, In (ADir fs) args /\ In q fs /\ accepted q = true.
+Proof. intros args q H. apply expand_from_sound in H. destruct H as [[]|H]; exact H. Qed.
+
+Lemma expand_complete_dir : forall args fs q, In (ADir fs) args -> In q fs -> accepted q = true -> In q (expand args).
+Proof. intros. eapply expand_from_complete_dir; eassumption. Qed.
+
+Lemma expand_complete_file : forall args q, In (AFile q) args -> In q (expand args).
+Proof. intros args q H. apply expand_from_complete_file; auto. Qed.
+
+(* the order of the arguments decides the order of the list, not its content: a file named after a directory is read too *)
+Definition dtxt : list N := [114;46;116;120;116].        (* r.txt *)
+Definition dfa : list N := [100;47;120;46;102;97;115;116;97].   (* d/x.fasta *)
+Lemma expand_order_independent_content :
+  expand [AFile dtxt; ADir [dfa]] = [dtxt; dfa] /\ expand [ADir [dfa]; AFile dtxt] = [dfa; dtxt].
+Proof. vm_compute. split; reflexivity. Qed.
